@@ -730,7 +730,21 @@ def run(ctx):
         for line, cls in gen.out[fam]:
             assert precond(line), "generator produced an op outside the preconditions: " + cls
             ctx.case(cls, 0)              # evaluations are counted by vlib.correspond below
-    ctx.coverage["generator_classes"] = {op: dict(sorted(h.items())) for op, h in sorted(gen.hist.items()) if not op.startswith("_")}
+    def _compact(h, cap=48):
+        """evidence stays readable: when an op has more than `cap` class keys, drop trailing `:k<=…` / `:p=…` /
+        denominator qualifiers (right to left) until the histogram fits"""
+        h = dict(h)
+        while len(h) > cap:
+            agg = {}
+            for k, v in h.items():
+                k2 = k.rsplit(":", 1)[0] if ":" in k else k
+                agg[k2] = agg.get(k2, 0) + v
+            if len(agg) == len(h):
+                break
+            h = agg
+        return dict(sorted(h.items()))
+    ctx.coverage["generator_classes"] = {op: _compact(h) for op, h in sorted(gen.hist.items()) if not op.startswith("_")}
+    ctx.coverage["generator_class_keys_total"] = sum(len(h) for op, h in gen.hist.items() if not op.startswith("_"))
     ctx.coverage["ops_per_c_function"] = {CFUNC[op]: sum(h.values()) for op, h in sorted(gen.hist.items()) if op in CFUNC}
     ctx.coverage["primes"] = [hx(p) for p in PRIMES]
     for fam in FAMILIES:
